@@ -91,7 +91,12 @@ RBody(j) ==
     <<ForS("", "v", sq, NoE, <<DoS(CallE("id", <<Un("not", NameE("v"))>>)), DoS(CallE("id", <<Interp(<<StrE("p"), NameE("v")>>)>>)),
                               DoS(CallE("id", <<Tern(NameE("v"), NameE("v"), StrE("no"))>>)),
                               DoS(CallE("id", <<Pipe(NameE("v"), "rec", <<NameE("v")>>)>>)),
-                              DoS(CallE("id", <<TestE(NameE("v"), FALSE, "yes", <<NameE("v")>>)>>))>>, <<>>, FALSE)>>
+                              DoS(CallE("id", <<TestE(NameE("v"), FALSE, "yes", <<NameE("v")>>)>>)),
+                              (* calls among the later arguments of a call, of a filter and of a test: the arguments already
+                                 evaluated are kept while the nested call evaluates its own *)
+                              DoS(CallE("nul", <<NameE("v"), StrE("k"), CallE("id", <<NameE("v"), StrE("z")>>),
+                                                 Pipe(NameE("v"), "rec", <<StrE("w"), CallE("id", <<NameE("v")>>)>>)>>)),
+                              DoS(TestE(NameE("v"), FALSE, "yes", <<StrE("t"), CallE("id", <<StrE("u"), NameE("v")>>), NameE("v")>>))>>, <<>>, FALSE)>>
 RBase == ND1 + ND2 + ND3
 
 Picked == (0..(ND1 - 1)) \cup (RBase..(RBase + NR - 1)) \cup {ND1 + Offset + Stride * m : m \in 0..((ND2 + ND3 - 1 - Offset) \div Stride)}
